@@ -295,7 +295,7 @@ def run_shard(tier, seed, spec, col):
                                         break
             # ---- the same samples from physically separate files: when several samples (or several read groups used as samples)
             # live in one BAM, a sample's column must equal the one obtained from a BAM holding ONLY its own alignments
-            if prog in ("call-exact", "call") and len(set(bam_of.values())) < len(bam_of):
+            if len(set(bam_of.values())) < len(bam_of):
                 split_of = {}
                 for s_ in ds.samples:
                     src = bam_of[s_]
@@ -317,6 +317,9 @@ def run_shard(tier, seed, spec, col):
                         rJ = joint.get(key)
                         if rJ is None or h3.samples != hJ.samples:
                             col.violation("locus-set-depends-on-samples", "%s: records / samples differ between shared and per-sample files" % prog, case)
+                            break
+                        if (r3.ref, r3.alts) != (rJ.ref, rJ.alts):
+                            col.violation("sample-column-depends-on-other-reads-in-its-file", "%s %s:%d: REF/ALT differ between the shared file and per-sample files" % (prog, key[0], key[1]), case)
                             break
                         bad = [s_ for s_ in ds.samples if col_text(r3, h3, s_) != col_text(rJ, hJ, s_)]
                         col.count("shared_vs_split_file_columns", len(ds.samples))
